@@ -71,3 +71,7 @@ Proof. exact t_bytes_alloc. Qed.
 Theorem C14_alloc_bound_partial_program : forall O tr bs a v r a',
   t_prog O tr bs a = TOk v r a' -> a' <= a + (1 + clvm_per_byte) * (nlen bs - nlen r) /\ nlen r <= nlen bs.
 Proof. exact t_prog_alloc. Qed.
+
+(* the reservation limit used by the model is the one in the Rust source of this run *)
+Theorem C14_vec_limit_is_translated : MiB2 = vec_prealloc_limit_bytes.
+Proof. exact vec_limit_translated. Qed.
